@@ -226,7 +226,7 @@ def handle (args : List V) : V :=
   -- C04: rows arrive in the peak-centred field order (peak, lastZeroxDecay, zeroxDecay, zeroxRise, lastTrough, nextTrough)
   | [.atom "shape.model", c, sig, amp, rows] =>
     match decCentre c, sig.listOf? V.rat?, amp.listOf? V.rat?, rows.listOf? decRow with
-    | some c, some sig, some amp, some rows => encExcept (encList encShape) (shapeFeatures c sig amp rows)
+    | some c, some sig, some amp, some rows => encExcept (encList encShape) (shapeFeaturesGen c sig amp rows)
     | _, _, _, _ => bad "shape.model"
   -- spec: original signal; for trough centring the six numbers are the trough-centred columns
   -- (trough, lastZeroxRise, zeroxRise, zeroxDecay, lastPeak, nextPeak)
